@@ -2,9 +2,13 @@
 package c03
 
 import (
+	"encoding/binary"
 	"fmt"
+	"os"
+	"path/filepath"
 	"testing"
 
+	"github.com/akalin/gopar/par2"
 	"pgregory.net/rapid"
 	"verifharness/ref/model"
 	"verifharness/ref/run"
@@ -126,11 +130,50 @@ func gen(t *rapid.T) scen.Case {
 	c.Bystanders = rapid.Bool().Draw(t, "by")
 	c.ForeignVol = rapid.IntRange(0, 3).Draw(t, "foreign") == 0
 	c.DupVol = rapid.IntRange(0, 3).Draw(t, "dup") == 0
+	c.DirName = rapid.SampledFrom(scen.DirNames).Draw(t, "dirname")
 	c.SymlinkVols = rapid.IntRange(0, 5).Draw(t, "symlink") == 0
 	if rapid.IntRange(0, 4).Draw(t, "stale") == 0 {
 		c.StaleNRec = rapid.IntRange(1, 9).Draw(t, "stalenrec")
 	}
 	return c
+}
+
+// bigFileCase: a protected file larger than 1 GiB (single read()/write() calls are capped at about 1-2 GiB by the OS and the Go runtime).
+func bigFileCase() string {
+	root := run.Scratch("c03big")
+	defer os.RemoveAll(root)
+	size := 1<<30 + 4096
+	data := make([]byte, size)
+	for o := 0; o < size; o += 1 << 20 {
+		binary.LittleEndian.PutUint64(data[o:], uint64(o)+0x1122334455)
+	}
+	p := filepath.Join(root, "big.bin")
+	if err := os.WriteFile(p, data, 0o644); err != nil {
+		return "" // not enough scratch space: skip silently (thorough tier only)
+	}
+	idx := filepath.Join(root, "set.par2")
+	if err := par2.Create(idx, []string{p}, par2.CreateOptions{SliceByteCount: 64 << 20, NumParityShards: 1, NumGoroutines: 8}); err != nil {
+		return "Create failed on a file above 1 GiB: " + err.Error()
+	}
+	r, err := par2.Verify(idx, par2.VerifyOptions{NumGoroutines: 8})
+	if err != nil {
+		return "Verify failed on an untouched file above 1 GiB: " + err.Error()
+	}
+	if r.ShardCounts.UsableDataShardCount != 17 || r.ShardCounts.UnusableDataShardCount != 0 || r.ShardCounts.RepairNeeded() {
+		return fmt.Sprintf("untouched 1 GiB + 4 KiB file: Verify counts %+v, want 17 usable / 0 unusable and no repair needed", r.ShardCounts)
+	}
+	// damage beyond the first GiB must be noticed
+	f, _ := os.OpenFile(p, os.O_WRONLY, 0)
+	f.WriteAt([]byte{0xff}, 1<<30+100)
+	f.Close()
+	r, err = par2.Verify(idx, par2.VerifyOptions{NumGoroutines: 8})
+	if err != nil {
+		return "Verify failed: " + err.Error()
+	}
+	if r.ShardCounts.UnusableDataShardCount != 1 || !r.ShardCounts.RepairNeeded() {
+		return fmt.Sprintf("one byte changed beyond the first GiB: Verify counts %+v, want exactly 1 unusable slice", r.ShardCounts)
+	}
+	return ""
 }
 
 func TestCheck(t *testing.T) {
@@ -185,6 +228,13 @@ func TestCheck(t *testing.T) {
 		var c scen.Case
 		if _, err := run.LoadReplay(f, &c); err == nil && cfg.Shard == 0 {
 			do(c)
+		}
+	}
+	if cfg.Thorough() && cfg.Shard == 3%cfg.NShards {
+		rec.Eval()
+		rec.Class("file>1GiB")
+		if msg := bigFileCase(); msg != "" {
+			rec.Fail("bigfile", scen.Case{Index: "file of 2^30+4096 bytes, slice size 64 MiB (fixed case, no parameters)"}, "", msg)
 		}
 	}
 	cfg.SetRapid(cfg.N(900, 12000), 1)
